@@ -43,9 +43,9 @@ CHECKS = {
              '5/40 PYTHONHASHSEED values, cache on / cleared / off, permuted supplies, input snapshots).',
         note='Partial in one named respect: the reads column of the identity table, and that sympde entry points are functions of '
              'the listed attributes only, are learnt by differential execution, not derived from the source. History / seed / cache '
-             'independence of the real code is observed on 12 recipes, not proved. Open findings: domains (and spaces, functions) '
-             'and differential forms are identified by name, so cached results leak between same-named objects of different '
-             'dimension / degree (name-reuse:domain, name-reuse:form).',
+             'independence of the real code is observed on 12 recipes, not proved. Open finding: domains (and with them spaces and '
+             'functions) are identified by name, so cached results leak between same-named domains of different dimension '
+             '(name-reuse:domain); the analogous leak of differential forms was repaired (4920d46).',
         technique='Lean 4 proof (invariant of the memo table over arbitrary histories, decided generated table) + translator by execution + differential execution in forked interpreters',
         design='6/C12'),
     'C14': dict(
@@ -84,6 +84,28 @@ CHECKS = {
              'applied to an already joined domain) keeps logical interface names, so its second export differs in the connectivity key.',
         technique='Lean 4 proof (loop invariant of join over the sorted connectivity, canonical-list lemmas shared with C14) + differential correspondence through real files',
         design='6/C15'),
+    'C16': dict(
+        text='Generated Lean 4 theorems (T1 translator harness/translate/mappings.py, regenerated from the current source on every '
+             'run): for each of the 11 catalogue mappings x admissible dimension (15 blocks) the stored symbolic quantities, with '
+             'symbolic parameters, are emitted as terms of the shared AST and proved coherent in EVERY differential ring (parameters, '
+             'coordinates, sin/cos of coordinates are arbitrary ring elements; no trigonometric identity is used): '
+             'jac_is_derivative_* (stored J_ij = D_xj of the stored expression i, via the proved model of sympy.diff sdiff_sound), '
+             'inv_is_inverse_* (J . Jinv = 1 under the explicit hypothesis that the denominators of the stored inverse are '
+             'invertible), metric_is_gram_* (G = J^T J), metric_det_is_det_* (stored det = det G). Method: Frac.asFrac turns every '
+             'expression into a fraction n/d with invertible d (asFraction_sound, proved once by structural induction) and each '
+             'obligation becomes a polynomial identity closed by ring (Czarny: grind with square-root facts). Plus a model of numpy '
+             'broadcasting as lambdify_sympde uses it: broadcast_shape (output shape = component shape ++ broadcast of the input '
+             'shapes, whatever variables each component depends on), refusal, commutativity, associativity, idempotence. Tied to '
+             'the code by a correspondence run (shape model, sdiff model vs stored Jacobians of catalogue and user mappings) and an '
+             'oracle (sympy differentiation + 50-digit evaluation; callable mapping values and shapes at points and arrays).',
+        note='Partial in named respects: floating-point accuracy of the callable mapping is observed (tolerance 1e-10 relative, '
+             'stated), not proved; for CzarnyMapping metric_det_is_det and inv_is_inverse are stated in comments only (the '
+             'cross-multiplied identities with square roots are beyond ring/grind within minutes) and are covered by the oracle; '
+             'its jac/metric theorems assume the square-root facts Czarny_2_Rad. jac_is_derivative assumes FnTable (derivative '
+             'table of sin, cos, ...). Trusted: Lean kernel (+propext/Classical.choice/Quot.sound), the T1 translator/serialiser, '
+             'the correspondence harness, sympy/mpmath for the 50-digit reference.',
+        technique='Lean 4 generated table theorems (fractions + ring identities) + broadcasting model + differential correspondence',
+        design='6/C16'),
     'C19': dict(
         text='Lean 4 theorems over all trees of the exterior-calculus model (Model/Exterior.lean): d(d x) and '
              'delta(delta x) are literally zero for every well-formed argument (eval_isImg + eval_img_isZero => d_d_zero, '
@@ -149,13 +171,18 @@ CHECKS['C18'] = dict(
          'equation holds, in declaration order, one condition per face of each declared boundary (order of the union\'s '
          'members kept) with identical lhs, rhs, order, unknown, components and normal flag; position_is_index - the '
          'stored position is the index of the first trial function equal to the unknown; non_trial_refused (also through '
-         'Equation); lhs_rhs_kept; length formula. Tied to the code by a differential run on random systems (1-4 '
+         'Equation); lhs_rhs_kept; length formula; history_independent / build_keeps_callers / positions_survive_history - '
+         'in an operation-sequence model with a heap of mutable condition objects, building further equations from the '
+         'same condition objects (other trial lists) and repositioning the caller\'s objects never changes the entries of an '
+         'equation built earlier nor, for constructions, the caller\'s objects; aliased_breaks_history - the variant that '
+         'stores the caller\'s single-face condition violates this. Tied to the code by a differential run on random systems (1-4 '
          'scalar/vector unknowns of all space kinds, unions of 1-6 faces, malformed left-hand sides, wrong argument types) '
-         'and an oracle comparing equation.bc entry by entry with the declared conditions.',
+         'and an oracle comparing equation.bc entry by entry with the declared conditions, including multi-step histories '
+         '(2-3 equations with permuted / extended trial lists from shared EssentialBC objects, all attributes of all earlier '
+         'equations and of the caller\'s objects re-read after every step, in the model and on the code).',
     note='Trusted: Lean kernel (+propext/Classical.choice/Quot.sound), the harness; two modelled facts about Dot.__new__ '
          '(orders its arguments by str; raises TypeError on an indexed function) asserted by the correspondence; functions '
-         'compare by class and name (sympy). constraint= and NewtonIteration are not modelled; the in-place set_position '
-         'on the caller\'s object is filed under C12. One defect repaired (commit 0e602cd: u.n refused on Hdiv/Hcurl/L2).',
+         'compare by class and name (sympy). constraint= and NewtonIteration are not modelled. One defect repaired (commit 0e602cd: u.n refused on Hdiv/Hcurl/L2).',
     technique='Lean 4 proof by case analysis on the left-hand-side shapes and induction on the condition list + differential correspondence',
     design='6/C18')
 
